@@ -51,7 +51,13 @@ func DecodeMetadata(input any, result any) error {
 	// if input is of type struct, cast it to metadata.Base and access the Properties instead
 	v := reflect.ValueOf(input)
 	if v.Kind() == reflect.Struct {
-		f := v.FieldByName("Properties")
+		// FieldByName panics if the field is promoted through an embedded pointer that is nil
+		var f reflect.Value
+		if sf, ok := v.Type().FieldByName("Properties"); ok {
+			if fv, err := v.FieldByIndexErr(sf.Index); err == nil {
+				f = fv
+			}
+		}
 		// Properties may be of a type defined as map[string]string (like metadata.Properties): convert it so that
 		// the assertion below cannot panic. Any other map type does not hold metadata properties and is ignored.
 		if f.IsValid() && f.Kind() == reflect.Map {
